@@ -1,15 +1,16 @@
 (* C18 correspondence: case type, model observation, executable statement (written against Pipe.eval /
    Pipe.needed, never against Lazy.lazy_run / Lazy.ev). *)
-From Verif Require Export Base.Prelude Base.StrOrd Base.Graph Model.Pipe Model.SymNone Model.Lazy Model.LazySeq Corr.PipeObs.
+From Verif Require Export Base.Prelude Base.StrOrd Base.Graph Model.Pipe Model.SymNone Model.Lazy Model.LazySeq Model.LazyXref Corr.PipeObs.
 
 Inductive case :=
 | CLazy (p : pipeline) (o : str) (kw : alist) (full : bool) (dag : bool)
     (* Pipeline(p, lazy=True).run(o, full_output=full, kwargs=kw), inside `with construct_dag()` when dag;
        then: call log, evaluate_lazy(result), log, evaluate_lazy(result) again, log, task graph *)
-| CSeq (p : pipeline) (dag : bool) (rs : list request).
+| CSeq (p : pipeline) (dag : bool) (rs : list request_t).
     (* ONE Pipeline(p, lazy=True) object; all requests (output, keywords, full_output, evaluate-right-away) in order,
        inside one `with construct_dag()` block when dag; then evaluate_lazy of every returned object.
-       Functions with cached=true use the pipeline's LRU cache; inside construct_dag() the task-graph cache is used. *)
+       Functions with cached=true use the pipeline's LRU cache; inside construct_dag() the task-graph cache is used.
+       A keyword value may be the deferred result of an earlier request (KRes j), bare or inside lists / tuples. *)
 
 Definition body := SymN.body.
 Definition pick := SymN.pick.
@@ -44,8 +45,8 @@ Definition run (c : case) : sx :=
       else bad_case
   | CSeq p dag rs =>
       if wf_pipelineb p then
-        let '(ps1, outcomes) := run_requests_checked body pick p dag (pinit) rs in
-        let '(ps2, values) := eval_all body pick ps1 outcomes in
+        let '(ps1, outcomes) := run_requests_t body pick p dag (pinit) [] rs in
+        let '(ps2, values) := eval_all_t body pick ps1 outcomes in
         SL [ SL (map (fun r => match r with Ok _ => SS (s "ok") | Err e => SErr e end) outcomes);
              sx_elog (plog ps1);
              SL (map (fun v => match v with
@@ -55,7 +56,17 @@ Definition run (c : case) : sx :=
                                | Some (Err e) => SErr e
                                end) values);
              sx_elog (plog ps2);
-             if dag then sx_nat_edges (pheap ps2) (pdag ps2) else SNone ]
+             if dag then
+               match sx_nat_edges (pheap ps2)
+                                  (fold_left (fun acc e => if existsb (fun x => (fst x =? fst e) && (snd x =? snd e)) acc
+                                                           then acc else acc ++ [e]) (pdag ps2) []) with   (* a DiGraph has no parallel edges *)
+               | SL [labs; es] =>
+                   SL [labs; es;
+                       SL (map (fun nd => SL (map SN (sort Nat.ltb (nodup Nat.eq_dec (deps_shallow nd))))) (pheap ps2));
+                       SL (map (fun nd => SL (map SN (sort Nat.ltb (nodup Nat.eq_dec (deps_all nd))))) (pheap ps2))]
+               | x => x
+               end
+             else SNone ]
       else bad_case
   end.
 
@@ -172,35 +183,77 @@ Fixpoint zip3_forall {A B C} (f : A -> B -> C -> bool) (a : list A) (b : list B)
 Definition count_str (x : str) (l : list str) : nat := length (filter (str_eqb x) l).
 Fixpoint unary (n : nat) : str := match n with O => [] | S k => "1"%char :: unary k end.
 
-Definition seq_ok (p : pipeline) (dag : bool) (rs : list request) (obs : sx) : bool :=
+(* ---- keyword values that are deferred results of earlier requests ----
+   the specification substitutes the VALUE the earlier request evaluates to (eval_top of that request); a request
+   that was rejected or returned a full_output dict is referenced as the string "none" (harness convention).
+   Evaluating a request also evaluates the requests it references, so their calls are expected with it. *)
+Fixpoint sval (vals : list (option str)) (v : kwval) : str :=
+  match v with
+  | KStr x => x
+  | KRes j => match nth j vals None with Some x => x | None => s "none" end
+  | KList _ l => s "[" ++ Sym.commas (map (sval vals) l) ++ s "]"
+  end.
+Fixpoint kv_refs (v : kwval) : list nat :=
+  match v with KStr _ => [] | KRes j => [j] | KList _ l => flat_map kv_refs l end.
+
+(* concrete requests (with their transitive expected calls), built from the statuses of the observation *)
+Fixpoint concretize (p : pipeline) (rs : list request_t) (sts : list sx) (vals : list (option str))
+                    (exps : list (list str)) : list (request * list str) :=
+  match rs, sts with
+  | (o, kwt, full, now) :: t, st :: sts' =>
+      let kw := map (fun kv => (fst kv, sval vals (snd kv))) kwt in
+      let own := match optM (call_string p kw) (needed_top p kw o) with Some l => l | None => [] end in
+      let refd := flat_map (fun j => match nth j vals None with Some _ => nth j exps [] | None => [] end)
+                           (flat_map (fun kv => kv_refs (snd kv)) kwt) in
+      let v := if sx_is_err st || full then None
+               else match eval_top body pick p kw o with Ok x => Some x | Err _ => None end in
+      ((o, kw, full, now), own ++ refd) :: concretize p t sts' (vals ++ [v]) (exps ++ [own ++ refd])
+  | _, _ => []
+  end.
+
+Definition sx_nats (x : sx) : option (list nat) :=
+  match x with SL l => optM (fun e => match e with SI a => Some (Z.to_nat a) | _ => None end) l | _ => None end.
+
+Definition seq_ok (p : pipeline) (dag : bool) (rst : list request_t) (obs : sx) : bool :=
   match obs with
   | SL [SL sts; lg0; SL vals; lg1; g] =>
       match un_strs lg0, un_strs lg1 with
       | Some l0, Some l1 =>
-          let accepted := map fst (filter (fun rs => negb (sx_is_err (snd rs))) (combine rs sts)) in
-          let exp_all := map (fun r => match req_expected p r with Some l => l | None => [] end) accepted in
-          let exp_now := map (fun r => match req_expected p r with Some l => l | None => [] end)
-                             (filter (fun r => snd r) accepted) in
+          let crs := concretize p rst sts [] [] in
+          let rs := map fst crs in
+          let acc := filter (fun x => negb (sx_is_err (snd x))) (combine crs sts) in
+          let accepted := map (fun x => fst (fst x)) acc in
+          let exp_all := map (fun x => snd (fst x)) acc in
+          let exp_now := map (fun x => snd (fst x)) (filter (fun x => snd (fst (fst x))) acc) in
           (* a request that is rejected only after its nodes were built (surplus keyword) may leave cached nodes
              behind that a later request legitimately reuses: its calls count as possible, not as required *)
-          let exp_may := map (fun r => match req_expected p r with Some l => l | None => [] end) rs in
-          zip3_forall (req_status_ok p) rs sts vals
+          let exp_may := map snd crs in
+          (length crs =? length rst)
+          && zip3_forall (req_status_ok p) rs sts vals
           && forallb (fun c => existsb (mem_str c) exp_now) l0          (* nothing before an evaluate() *)
           && forallb (fun c => existsb (mem_str c) exp_may) l1
           && forallb (fun e => subset_str e l1) exp_all
           && forallb (fun c => count_str c l1 <=? length (filter (mem_str c) exp_may)) l1
           && (if dag then
                 match g with
-                | SL [SL labs; SL es] =>
+                | SL [SL labs; SL es; SL _; SL dall] =>
                     match optM un_str labs,
-                          optM (fun e => match e with SL [SI a; SI b] => Some (Z.to_nat a, Z.to_nat b) | _ => None end) es with
-                    | Some labels, Some edges =>
+                          optM (fun e => match e with SL [SI a; SI b] => Some (Z.to_nat a, Z.to_nat b) | _ => None end) es,
+                          optM sx_nats dall with
+                    | Some labels, Some edges, Some deps =>
                         acyclicb {| nodes := map unary (seq 0 (length labels));
                                     edges := map (fun e => (unary (fst e), unary (snd e))) edges |}
                         && forallb (fun e => (fst e <? length labels) && (snd e <? length labels)) edges
                         && forallb (fun r => let '(o, kw, _, _) := r in
                                              forallb (fun f => mem_str (fname f) labels) (needed_top p kw o)) accepted
-                    | _, _ => false
+                        (* an edge for exactly each producer-consumer dependency of the evaluation: node i depends
+                           on every deferred object that evaluating it evaluates (any container depth) *)
+                        && (length deps =? length labels)
+                        && forallb (fun e => existsb (Nat.eqb (fst e)) (nth (snd e) deps [])) edges
+                        && forallb (fun id => forallb (fun d => existsb (fun e => (fst e =? d) && (snd e =? id)) edges)
+                                                      (nth id deps []))
+                                   (seq 0 (length labels))
+                    | _, _, _ => false
                     end
                 | _ => false
                 end
